@@ -117,6 +117,9 @@ theorem C29_no_loss (P : Params) (s s' : State) (a : Action) (hi : Inv P s) (h :
     split at h
     · simp only [Option.some.injEq] at h; subst h; exact hx
     · simp at h
+  | failedUpload =>
+    simp only [step, Option.some.injEq] at h
+    subst h; exact hx
 
 /-- C29, "never invents": only a newly shipped block brings a new sample; a compaction result
     holds nothing but samples of the blocks it was compacted from. -/
@@ -190,6 +193,9 @@ theorem C29_no_invention (P : Params) (s s' : State) (a : Action) (hns : a ≠ .
     split at h
     · simp only [Option.some.injEq] at h; subst h; exact hx
     · simp at h
+  | failedUpload =>
+    simp only [step, Option.some.injEq] at h
+    subst h; exact hx
 
 
 /-! ### the planner is not part of the model: ANY plan over the compactor's view is allowed -/
@@ -398,6 +404,10 @@ theorem step_lam (P : Params) (s s' : State) (a : Action) (hi : Inv P s) (hl : L
     split at h
     · simp only [Option.some.injEq] at h; subst h; exact ⟨hl.src_lt, hl.laminar⟩
     · simp at h
+  | failedUpload =>
+    simp only [step, Option.some.injEq] at h
+    subst h
+    exact ⟨fun b hb x hx => by have := hl.src_lt b hb x hx; simp only; omega, hl.laminar⟩
 
 theorem run_lam (P : Params) (hT : P.levelTie = true) : ∀ (acts : List Action) (s s' : State),
     s.gws = [] → Inv P s → Lam s → run P s acts = some s' → Lam s'
@@ -481,6 +491,11 @@ example : (run (compactorOnly 100) (init 0)
 theorem C29_fact_compact_order :
     Thanos.Facts.groupCompactOrder = ["CompactWithBlockPopulator", "deleteBlock", "Upload", "deleteBlock"] ∧
     Thanos.Facts.deleteBlockMarks = ["MarkForDeletion"] := by decide
+
+/-- the upload's error reaches the check in front of the marking loop (shared with C34, where the
+    skeleton `marksReached` is defined): marks are placed only after the result upload returned nil -/
+theorem C29_fact_marks_only_after_upload :
+    marksReached Thanos.Facts.groupCompactUploadGuard true = false := C34_fact_marks_only_after_upload.2.1
 
 /-- one iteration of `BucketCompactor.Compact`: sync, clean, garbage-collect, then plan -/
 theorem C29_fact_loop_order :
